@@ -217,7 +217,7 @@ static void space_paths(void)
 
 static uint8_t SEEDS[256][512];
 static size_t SEEDLEN[256];
-static int NSEEDS;
+static int NSEEDS, NSEEDS_MAIN;
 
 static void make_seeds(void)
 {
@@ -269,6 +269,27 @@ static void make_seeds(void)
 		if (kind == 0) { memcpy(SEEDS[NSEEDS] + SEEDLEN[NSEEDS], DATA5, 5); }
 		++NSEEDS;
 	}
+	NSEEDS_MAIN = NSEEDS;
+	/* special shapes, always part of the quick tier too: entries with a path but no name, under the OS types that have their own
+	 * rules for them (Amiga LHA writes directories as nameless empty -lh0- members), with and without data */
+	{
+		static const uint8_t oss[4] = { 'A', 'U', 'M', 'a' };
+		int oi, withdata;
+		for (level = 1; level <= 3; ++level)
+		for (oi = 0; oi < 4; ++oi)
+		for (withdata = 0; withdata < 2; ++withdata) {
+			ref_hdr f;
+			hdr_init(&f, level, "-lh0-");
+			f.os = oss[oi];
+			add_ext(&f, 2, "amiga\xff" "dir\xff", 10);
+			f.size = f.packed = withdata ? 5 : 0;
+			f.crc = withdata ? ref_crc16(0, DATA5, 5) : 0;
+			SEEDLEN[NSEEDS] = ref_hdr_encode(&f, SEEDS[NSEEDS], sizeof SEEDS[0]);
+			if (SEEDLEN[NSEEDS] == 0) continue;
+			if (withdata) memcpy(SEEDS[NSEEDS] + SEEDLEN[NSEEDS], DATA5, 5);
+			++NSEEDS;
+		}
+	}
 }
 
 /* a valid follower member */
@@ -288,7 +309,7 @@ static void make_follower(void)
  * mode 12: report FAIL-but-returned; mode 5: report OK-but-different. */
 static void perturbed_case(const uint8_t *hp, size_t hlen, size_t seed_hdr_len, int lead, int follow, int mode)
 {
-	static uint8_t arc[4096];
+	static uint8_t arc[140000];
 	size_t o = 0, hoff, total;
 	ref_hdr rh;
 	ref_norm n;
@@ -365,10 +386,10 @@ static void space_integrity(int mode)
 	static const uint32_t lvals[] = { 0, 1, 2, 3, 4, 5, 0x7F, 0xFF, 0x100, 0xFFFF };
 	make_seeds();
 	make_follower();
-	if (nseeds > NSEEDS) nseeds = NSEEDS;
-	for (s = 0; s < nseeds; ++s) {
-		/* quick tier uses a stride through the seed list so that all levels/kinds are represented */
-		int si = nseeds < NSEEDS ? (s * NSEEDS) / nseeds : s;
+	if (nseeds > NSEEDS_MAIN) nseeds = NSEEDS_MAIN;
+	for (s = 0; s < nseeds + (NSEEDS - NSEEDS_MAIN); ++s) {
+		/* quick tier uses a stride through the seed list so that all levels/kinds are represented; the special shapes always run */
+		int si = s >= nseeds ? NSEEDS_MAIN + (s - nseeds) : nseeds < NSEEDS_MAIN ? (s * NSEEDS_MAIN) / nseeds : s;
 		const uint8_t *seed = SEEDS[si];
 		ref_hdr rh;
 		const char *why;
@@ -439,6 +460,75 @@ static void space_integrity(int mode)
 				}
 			}
 		}
+		}
+	/* a level-3 header longer than 65535 bytes (common CRC, name, one 64 KiB extended header): substitutions at the first 120 and
+	 * the last 60 bytes and at every 509th byte in between - the checks must cover all of it, not its length modulo 2^16 */
+	if (!atoi(vf_extra("pairs", "0"))) {
+		static uint8_t big[70000], filler[65536], t[70000];
+		ref_hdr f, rh2;
+		const char *why2;
+		size_t hl, pos;
+		unsigned i;
+		for (i = 0; i < sizeof filler; ++i) filler[i] = (uint8_t) (i * 7 + 3);
+		hdr_init(&f, 3, "-lh0-");
+		add_ext(&f, 0, "\0\0", 2);
+		add_ext(&f, 1, "big.bin", 7);
+		add_ext(&f, 0x3F, filler, sizeof filler);
+		f.size = f.packed = 5; f.crc = ref_crc16(0, DATA5, 5);
+		hl = ref_hdr_encode(&f, big, sizeof big);
+		/* the last two bytes of the long extended header are chosen so that the CRC of the whole header equals the CRC of its
+		 * first (length mod 2^16) bytes: a check that covers only that much still accepts the intact header, and then has to
+		 * show on the substitutions that it does not cover the rest */
+		if (hl > 65536 + 8) {
+			size_t k = hl & 0xFFFF, p2 = hl - 4 - 2, q;
+			uint16_t S, T, c;
+			unsigned a, b, found = 0;
+			/* position of the stored CRC: the two bytes which, when zeroed, make the CRC of the whole equal to them */
+			size_t fld = 0;
+			memcpy(t, big, hl);
+			for (q = 20; q < 64 && !fld; ++q) {
+				uint8_t s0 = t[q], s1 = t[q + 1];
+				t[q] = t[q + 1] = 0;
+				if (ref_crc16(0, t, hl) == (uint16_t) (s0 | (s1 << 8))) fld = q; else { t[q] = s0; t[q + 1] = s1; }
+			}
+			if (!fld || fld + 2 > k) k = 0;
+			if (k) {
+				T = ref_crc16(0, t, k);
+				S = ref_crc16(0, t, p2);
+				for (a = 0; a < 256 && !found; ++a)
+				for (b = 0; b < 256 && !found; ++b) {
+					uint8_t tail[6] = { (uint8_t) a, (uint8_t) b, t[p2 + 2], t[p2 + 3], t[p2 + 4], t[p2 + 5] };
+					c = ref_crc16(S, tail, 6);
+					if (c == T) { filler[sizeof filler - 2] = (uint8_t) a; filler[sizeof filler - 1] = (uint8_t) b; found = 1; }
+				}
+				if (found) hl = ref_hdr_encode(&f, big, sizeof big);
+				else printf("NOTE long-seed=no byte pair makes the two CRCs equal\n");
+			}
+		}
+		if (!hl || ref_hdr_parse(big, hl + 5, &rh2, &why2) != REF_INT_OK) printf("HARNESS the long level-3 seed is not accepted by the reference (%s)\n", hl ? why2 : "not encodable");
+		else {
+			memcpy(big + hl, DATA5, 5);
+			if (vf_case("long level-3 header (%zu bytes) unperturbed", hl)) { perturbed_case(big, hl + 5, hl, 0, 1, mode); perturbed_case(big, hl + 5, hl, 1, 0, mode); }
+			for (pos = 0; pos < hl; pos += (pos < 120 || pos + 60 >= hl) ? 1 : (pos + 509 + 60 < hl ? 509 : hl - 60 - pos)) {
+				static const uint8_t xv[3] = { 0x01, 0x80, 0xFF };
+				if (!vf_case("long level-3 header (%zu bytes) byte %zu: 3 substitutions", hl, pos)) continue;
+				for (i = 0; i < 3; ++i) {
+					memcpy(t, big, hl + 5);
+					t[pos] ^= xv[i];
+					perturbed_case(t, hl + 5, hl, 0, 1, mode);
+				}
+				vf_nontrivial(vf_mix(pos, 31337));
+			}
+		}
+	}
+	for (s = 0; s < nseeds + (NSEEDS - NSEEDS_MAIN) && atoi(vf_extra("pairs", "0")); ++s) {
+		int si = s >= nseeds ? NSEEDS_MAIN + (s - nseeds) : nseeds < NSEEDS_MAIN ? (s * NSEEDS_MAIN) / nseeds : s;
+		const uint8_t *seed = SEEDS[si];
+		ref_hdr rh;
+		const char *why;
+		size_t hl, full;
+		if (ref_hdr_parse(seed, sizeof SEEDS[0], &rh, &why) != REF_INT_OK) continue;
+		hl = rh.header_len; full = hl + rh.packed;
 		/* two bytes changed at once (pairs=1): every pair of header positions x 15 x 15 replacement values, the additive checksum
 		 * of levels 0/1 re-made for every other combination so that the second rule in line is what decides */
 		if (atoi(vf_extra("pairs", "0"))) {
